@@ -55,7 +55,7 @@ def main():
     outcome["wall_s"] = round(time.time() - t0, 2)
     known = findings.load()
     new, listed = findings.split(prop, outcome["violations"], known)
-    out_dir = os.path.join(ROOT, "out", prop)
+    out_dir = os.path.join(evidence.OUT_ROOT, "out", prop)
     os.makedirs(out_dir, exist_ok=True)
     if not rp:
         for f in os.listdir(out_dir):
